@@ -6,9 +6,11 @@ package c19
 
 import (
 	"fmt"
+	"math"
 	"strings"
 	"time"
 
+	"k8s.io/apimachinery/pkg/apis/meta/v1/unstructured"
 	"k8s.io/cli-runtime/pkg/resource"
 
 	"verif/checks/c02"
@@ -253,7 +255,7 @@ func Run(r *fw.Run) {
 		names, orders := baseOrders(n)
 		b := c.Choose(len(orders), "base order")
 		j := c.Choose(n, "position")
-		bad := fw.Pick(c, []int{-1, 1001, -1000, 100000, 1<<32 + 5, 1<<32 + 10 + orders[b][j], -(1 << 32) + 7, 1 << 31}, "bad priority (the last four do not fit an int32; two of them wrap to a valid priority, one to a priority another policy has)")
+		bad := fw.Pick(c, []int{-1, 1001, -1000, 100000, 1<<32 + 5, 1<<32 + 10 + orders[b][j], -(1 << 32) + 7, 1 << 31, math.MaxInt64, math.MinInt64}, "bad priority (the last six do not fit an int32; two of them wrap to a valid priority, one to a priority another policy has; the last two stand for 2^63 and -1e20, which do not fit an int64 either and are decoded as floating point numbers)")
 		infos, after, sn := surroundings(c)
 		if sn != surroundNames[0] && (n > 5 || b > 1) {
 			c.Skip()
@@ -268,7 +270,13 @@ func Run(r *fw.Run) {
 					a = bare(a)
 				}
 			}
-			infos = append(infos, wm.InfoANP(a))
+			inf := wm.InfoANP(a)
+			if pos == j && (bad == math.MaxInt64 || bad == math.MinInt64) {
+				// what the YAML/JSON decoder makes of an integer that does not fit an int64
+				f := map[bool]float64{true: 9223372036854775808, false: -1e20}[bad > 0]
+				inf.Object.(*unstructured.Unstructured).Object["spec"].(map[string]interface{})["priority"] = f
+			}
+			infos = append(infos, inf)
 		}
 		infos = append(infos, after...)
 		expect := []string{fmt.Sprintf("pol-%02d", j), fmt.Sprint(bad), "Priority"}
